@@ -25,15 +25,83 @@ theorem eq_of_isOk {r : Except Err Text} {t : Text} (h : isOk r t = true) : r = 
   | ok x => simp [isOk] at h; simp [h]
   | error e => simp [isOk] at h
 
-def romanOk (n : Nat) : Bool :=
-  n == 0 || isOk (formatIntRoman (n : Int)) (Spec.Labels.romanAux Spec.Labels.romanTable n)
+/-- The loop over the three low digits against the part of the table below `m`. -/
+def romanLowOk (k : Nat) : Bool :=
+  match romanLoop 3 k 0 [] with
+  | .ok r => r.flatten == Spec.Labels.romanAux Spec.Labels.romanTable.tail k
+  | .error _ => false
 
-theorem romanOk_all : (List.range 4000).all romanOk = true := by decide +kernel
+theorem romanLowOk_all : (List.range 1000).all romanLowOk = true := by decide +kernel
+
+theorem rep_eq_replicate (s : Text) : ∀ k, rep s k = (List.replicate k s).flatten
+  | 0 => rfl
+  | k + 1 => by simp [rep, List.replicate_succ, rep_eq_replicate s k]
+
+theorem romanAux_table (n : Nat) :
+    Spec.Labels.romanAux Spec.Labels.romanTable n =
+      (List.replicate (n / 1000) [109]).flatten ++ Spec.Labels.romanAux Spec.Labels.romanTable.tail (n % 1000) := rfl
+
+/-- `format_int_roman` for EVERY positive value: repeated `m` for the thousands (however many),
+then the swept low part. -/
+theorem formatIntRoman_all (n : Nat) (h : 0 < n) :
+    formatIntRoman (n : Int) = .ok (Spec.Labels.romanAux Spec.Labels.romanTable n) := by
+  have hk := all_range_lift romanLowOk_all (n % 1000) (Nat.mod_lt _ (by decide))
+  unfold romanLowOk at hk
+  unfold formatIntRoman
+  have h0 : (0 : Int) < n := by omega
+  have hm : listGet ROMAN_ONES 3 = .ok [109] := rfl
+  simp only [h0, if_true, Int.toNat_natCast]
+  cases hr : romanLoop 3 (n % 1000) 0 [] with
+  | error e => rw [hr] at hk; simp at hk
+  | ok r =>
+    rw [hr] at hk
+    have hf : r.flatten = Spec.Labels.romanAux Spec.Labels.romanTable.tail (n % 1000) := by simpa using hk
+    rw [romanAux_table, ← hf]
+    simp [bind, Except.bind, hm, pure, Except.pure, rep_eq_replicate]
 
 def romanValueOk (n : Nat) : Bool :=
   Spec.Labels.romanValue (Spec.Labels.romanAux Spec.Labels.romanTable n) == (n : Int)
 
 theorem romanValueOk_all : (List.range 4000).all romanValueOk = true := by decide +kernel
+
+theorem romanDigitValue_le (c : Nat) : Spec.Labels.romanDigitValue c ≤ 1000 := by
+  unfold Spec.Labels.romanDigitValue
+  repeat' split
+  all_goals omega
+
+theorem romanValueAux_snd_le (t : Text) : (Spec.Labels.romanValueAux t).2 ≤ 1000 := by
+  cases t with
+  | nil => simp [Spec.Labels.romanValueAux]
+  | cons c tl => simp only [Spec.Labels.romanValueAux]; exact romanDigitValue_le c
+
+/-- `k` leading `m` are never subtracted: they add `1000 k`. -/
+theorem romanValue_ms (t : Text) : ∀ k : Nat,
+    Spec.Labels.romanValue ((List.replicate k [109]).flatten ++ t) = 1000 * (k : Int) + Spec.Labels.romanValue t
+  | 0 => by simp
+  | k + 1 => by
+    have ih := romanValue_ms t k
+    have hle := romanValueAux_snd_le ((List.replicate k [109]).flatten ++ t)
+    unfold Spec.Labels.romanValue at ih ⊢
+    simp only [List.replicate_succ, List.flatten_cons, List.cons_append, List.nil_append,
+      Spec.Labels.romanValueAux]
+    have hd : Spec.Labels.romanDigitValue 109 = 1000 := by decide
+    rw [hd]
+    have : ¬ (1000 < (Spec.Labels.romanValueAux ((List.replicate k [109]).flatten ++ t)).2) := by omega
+    simp only [this, if_false, ih]
+    omega
+
+/-- Sanity of the specification for EVERY `n`: the numeral reads back as `n`. -/
+theorem romanValue_all (n : Nat) :
+    Spec.Labels.romanValue (Spec.Labels.romanAux Spec.Labels.romanTable n) = (n : Int) := by
+  have hk := all_range_lift romanValueOk_all (n % 1000) (by have := Nat.mod_lt n (by decide : 1000 > 0); omega)
+  unfold romanValueOk at hk
+  have hk' := eq_of_beq hk
+  rw [romanAux_table] at hk'
+  have h1 : n % 1000 / 1000 = 0 := by omega
+  have h2 : n % 1000 % 1000 = n % 1000 := by omega
+  simp only [h1, h2, List.replicate_zero, List.flatten_nil, List.nil_append] at hk'
+  rw [romanAux_table, romanValue_ms, hk']
+  omega
 
 def alphaOk (n : Nat) : Bool :=
   n == 0 || isOk (formatIntAlpha (n : Int)) (List.replicate ((n - 1) / 26 + 1) (97 + (n - 1) % 26))
